@@ -26,10 +26,10 @@ TRUSTED = ['CPython', 'NumPy', 'the solvers behind rsome default / eco_solver / 
 
 VARIANTS = {'R1': ['1'], 'R2': ['v', 'c', 'vc'], 'R3': ['neg', 'flip', 'sub'], 'R4': ['1'], 'R5': ['lin', 'ninf'],
             'R6': ['loop', 'elem'], 'R7': ['2', '0.4', '2.5'], 'R8': ['args', 'gen', 'tup', 'bl', 'll', 'lb'], 'R9': ['1']}
-BASES = ['lp', 'socp', 'ro_box', 'ro_norm', 'ro_ball', 'ro_boxeq', 'ro_zbox', 'ro_zmir', 'dro', 'dro_pl']
-HOWS = {'lp': ['def', 'eco'], 'socp': ['eco', 'grb'], 'ro_box': ['def', 'eco'], 'ro_norm': ['def', 'eco'],
+BASES = ['lp', 'milp', 'socp', 'ro_box', 'ro_norm', 'ro_ball', 'ro_boxeq', 'ro_zbox', 'ro_zmir', 'dro', 'dro_pl']
+HOWS = {'lp': ['def', 'eco'], 'milp': ['def', 'ort'], 'socp': ['eco', 'grb'], 'ro_box': ['def', 'eco'], 'ro_norm': ['def', 'eco'],
         'ro_ball': ['eco'], 'ro_boxeq': ['def'], 'ro_zbox': ['def', 'eco'], 'ro_zmir': ['def'], 'dro': ['def', 'eco'], 'dro_pl': ['def']}
-NOT_APPLICABLE = {('dro', 'R9'), ('dro_pl', 'R9')}
+NOT_APPLICABLE = {('dro', 'R9'), ('dro_pl', 'R9'), ('milp', 'R9')}
 
 
 def gen_cases(tier, seed):
